@@ -146,7 +146,7 @@ func (o OneOfSchema[KeyType]) UnserializeType(data any) (result any, err error) 
 	}
 	unserializedMap, ok := unserializedData.(map[string]any)
 	if ok {
-		unserializedMap[o.DiscriminatorFieldNameValue] = discriminator
+		unserializedMap[o.DiscriminatorFieldNameValue] = typedDiscriminator
 		return unserializedMap, nil
 	}
 	return saveConvertTo(unserializedData, o.ReflectedType())
